@@ -24,11 +24,13 @@ VARIABLES parents,  \* [Classes -> SUBSET Classes]
           alias,    \* [Aliases -> Classes \cup Aliases]
           ty,       \* the type name the variable is annotated with
           wrap,
+          split,    \* "none", or a class that is declared a second time in a further file with one more field (a class
+                    \* split across files has the fields of all its declarations)
           layout,   \* how the class declarations are spread over files: "AB|C", "ABC" (one file), "A|B|C"
           where     \* where the wrapper is written: "type" = on the ---@type line (X[]), "alias" = in the alias that
                     \* names the class (---@alias X KA[] ... ---@type X); the variable is indexed either way
 
-vars == <<parents, shared, alias, ty, wrap, layout, where>>
+vars == <<parents, shared, alias, ty, wrap, split, layout, where>>
 
 \* ancestors of a class, itself included (reflexive-transitive closure; terminates on cycles)
 RECURSIVE Up(_, _)
@@ -45,13 +47,27 @@ Resolve(t, seen) == IF t \in Classes THEN t
 Target == Resolve(ty, {})
 
 OwnField(c) == "f_" \o c
+ExtraField(c) == "f_" \o c \o "x"      \* the field of the class's second declaration
 Members == IF Target = "none" THEN {}
            ELSE {OwnField(c) : c \in Ancestors(Target)} \cup (IF Ancestors(Target) \cap shared # {} THEN {"fshared"} ELSE {})
+                \cup (IF split \in Ancestors(Target) THEN {ExtraField(split)} ELSE {})
+
+\* As built (known finding Dev_SplitClassLocalDeclarationHidesOthers): a class name is looked up in the file the
+\* lookup starts from first, and only if that file does not declare it in all files.  The ---@type line and the
+\* aliases sit in main.lua, which declares no class; a parent is looked up from the file of the class that names it.
+\* So the second declaration of the split class is seen only when the class is the target itself or is named as a
+\* parent by a class of another file.
+FileOf(c) == IF layout = "ABC" THEN 1
+             ELSE IF layout = "A|B|C" THEN (IF c = "KA" THEN 1 ELSE IF c = "KB" THEN 3 ELSE 2)
+             ELSE (IF c = "KC" THEN 2 ELSE 1)
+SplitSeen == split # "none" /\ Target # "none" /\
+             (Target = split \/ \E c \in Ancestors(Target) : split \in parents[c] /\ FileOf(c) # FileOf(split))
+MembersDev == IF split # "none" /\ ~SplitSeen THEN Members \ {ExtraField(split)} ELSE Members
 
 \* which classes may be the declaring class of member m (go-to-definition may land on any of them)
 Declarers(m) == IF Target = "none" THEN {}
                 ELSE IF m = "fshared" THEN Ancestors(Target) \cap shared
-                ELSE {c \in Ancestors(Target) : OwnField(c) = m}
+                ELSE {c \in Ancestors(Target) : OwnField(c) = m \/ (c = split /\ ExtraField(c) = m)}
 
 DefaultAlias == [a \in Aliases |-> CHOOSE c \in Classes : TRUE]
 AliasCfgs == IF Level = "thorough" THEN [Aliases -> Classes \cup Aliases]
@@ -66,6 +82,9 @@ Init == /\ parents \in [Classes -> SUBSET Classes]
         /\ wrap \in Wrappers
         /\ where \in {"type", "alias"}
         /\ layout \in {"AB|C", "ABC", "A|B|C"}
+        /\ split \in {"none", "KA"}
+        /\ (Level = "quick" /\ split # "none" => wrap = "plain" /\ shared = {} /\ layout = "AB|C" /\ where = "type")
+        /\ (Level = "cycles" => split = "none")
         /\ (Level = "quick" /\ layout # "AB|C" => wrap = "plain" /\ shared = {} /\ ty \in Classes)
         /\ (Level = "cycles" => HasCycle /\ wrap = "plain" /\ shared = {} /\ ty \in Classes)
         /\ (where = "alias" => ty \in Aliases /\ wrap # "plain" /\ Resolve(ty, {}) # "none")
@@ -81,7 +100,7 @@ MembersMonotone == \A c \in Classes : OwnField(c) \in Members => c \in Ancestors
 SelfMember == Target # "none" => OwnField(Target) \in Members
 CycleSafe == Target \in Classes \cup {"none"}
 
-Emit == PrintT("@@J " \o ToJson([fam |-> "classgraph", parents |-> parents, shared |-> shared, alias |-> alias, ty |-> ty, wrap |-> wrap, where |-> where, layout |-> layout,
-                                 target |-> Target, members |-> Members,
+Emit == PrintT("@@J " \o ToJson([fam |-> "classgraph", parents |-> parents, shared |-> shared, alias |-> alias, ty |-> ty, wrap |-> wrap, where |-> where, layout |-> layout, split |-> split,
+                                 target |-> Target, members |-> Members, membersdev |-> MembersDev,
                                  decl |-> [m \in Members |-> Declarers(m)]]))
 =============================================================================
